@@ -152,6 +152,8 @@ pub enum Chunk {
     Bytes64,
     /// 7-byte writes for the first 4200 bytes (600 writes), then 65521-byte writes
     Seven,
+    /// 16 KiB writes from the first byte to the last (slow-reader sub-matrix only, not in `ALL`)
+    K16,
 }
 
 impl Chunk {
@@ -161,10 +163,11 @@ impl Chunk {
             Chunk::One => "one-write",
             Chunk::Bytes64 => "1-byte-x64",
             Chunk::Seven => "7-byte",
+            Chunk::K16 => "16-KiB-writes",
         }
     }
     pub fn parse(s: &str) -> Option<Self> {
-        Self::ALL.into_iter().find(|e| e.name() == s)
+        Self::ALL.into_iter().chain([Chunk::K16]).find(|e| e.name() == s)
     }
 }
 
@@ -238,6 +241,61 @@ pub fn filler(conn: usize, dir: u8, from: usize, to: usize) -> Vec<u8> {
     (from..to).map(|k| block[k % FILLER_PERIOD]).collect()
 }
 
+/// Slow-reader sub-matrix: which end sits on its connection without reading while the other end
+/// writes a payload that is larger than everything that can be buffered on the way.
+#[derive(Clone, Copy, Debug, PartialEq, Eq, Hash)]
+pub enum SlowDir {
+    /// the target writes, the LOCAL CLIENT does not read for a while
+    Download,
+    /// the local client writes, the TARGET does not read for a while
+    Upload,
+}
+
+impl SlowDir {
+    pub const ALL: [SlowDir; 2] = [SlowDir::Download, SlowDir::Upload];
+    pub fn name(self) -> &'static str {
+        match self {
+            SlowDir::Download => "download",
+            SlowDir::Upload => "upload",
+        }
+    }
+    /// what every violation key of such a scenario ends in
+    pub fn key_suffix(self) -> &'static str {
+        match self {
+            SlowDir::Download => ".slow-reader-download",
+            SlowDir::Upload => ".slow-reader-upload",
+        }
+    }
+    pub fn parse(s: &str) -> Option<Self> {
+        Self::ALL.into_iter().find(|e| e.name() == s)
+    }
+    /// the close orders in which the WRITING end of this direction ends the exchange
+    /// (half-close after its payload / close of both directions)
+    pub fn orders(self) -> [Order; 2] {
+        match self {
+            SlowDir::Download => [Order::TargetHalf, Order::TargetClose],
+            SlowDir::Upload => [Order::ClientHalf, Order::ClientClose],
+        }
+    }
+}
+
+/// A point of the slow-reader sub-matrix: the reading end of `dir` waits `stall_s` seconds (from
+/// the moment its connection exists) before its first read, then reads to the end like everywhere.
+#[derive(Clone, Copy, Debug, PartialEq, Eq, Hash)]
+pub struct Slow {
+    pub dir: SlowDir,
+    pub stall_s: u64,
+}
+
+/// slow-reader sub-matrix: what a scenario is allowed on top of the stall (connection set-up, the
+/// transfer once the reader reads, the close); the machine may be heavily loaded
+pub const SLOW_TRANSFER_S: u64 = 60;
+/// slow-reader sub-matrix: length of the payload of the direction that is NOT under test (both
+/// halves of a half-responder are non-empty; far below any buffer)
+pub const SLOW_REVERSE_LEN: usize = 4099;
+/// slow-reader sub-matrix: every payload is written like this
+pub const SLOW_CHUNK: Chunk = Chunk::K16;
+
 #[derive(Clone, Debug, PartialEq, Eq, Hash)]
 pub struct TcpCase {
     pub entry: Entry,
@@ -248,6 +306,8 @@ pub struct TcpCase {
     pub conc: usize,
     /// Some: a point of the dual-stack sub-matrix (the target is named by a dual-stack host name)
     pub dual: Option<Dual>,
+    /// Some: a point of the slow-reader sub-matrix (one end does not read for a while)
+    pub slow: Option<Slow>,
 }
 
 impl TcpCase {
@@ -264,6 +324,14 @@ impl TcpCase {
             v["dual_stack_name"] = json!(d.name.host());
             v["target_listens_on"] = json!(d.listen.name());
             v["hosts_file_of_the_private_mount_namespace"] = json!(dual_hosts_file());
+        }
+        if let Some(sl) = self.slow {
+            v["slow_reader"] = json!(sl.dir.name());
+            v["slow_reader_stall_s"] = json!(sl.stall_s);
+            v["slow_reader_rule"] = json!(match sl.dir {
+                SlowDir::Download => "every local connection waits slow_reader_stall_s seconds after the entry point granted the request before its first read, then reads to the end; the target writes its payload at once",
+                SlowDir::Upload => "every target connection waits slow_reader_stall_s seconds after it was accepted before its first read, then reads to the end; the local client writes its payload at once",
+            });
         }
         v
     }
@@ -282,8 +350,13 @@ impl TcpCase {
             Some(n) => Some(Dual { name: DualName::parse(n)?, listen: Listen::parse(v["target_listens_on"].as_str()?)? }),
             None => None,
         };
+        let slow = match v.get("slow_reader").and_then(Value::as_str) {
+            Some(d) => Some(Slow { dir: SlowDir::parse(d)?, stall_s: v["slow_reader_stall_s"].as_u64()? }),
+            None => None,
+        };
         Some(Self {
             dual,
+            slow,
             entry: Entry::parse(v["entry"].as_str()?)?,
             c2t: usize::try_from(v["c2t_len"].as_u64()?).ok()?,
             t2c: usize::try_from(v["t2c_len"].as_u64()?).ok()?,
@@ -294,7 +367,17 @@ impl TcpCase {
     }
     pub fn label(&self) -> String {
         let dual = self.dual.map_or_else(String::new, |d| format!(" dual-stack-name {} target-on {}", d.name.host(), d.listen.name()));
-        format!("tcp {}{dual} c2t={} t2c={} {} {} x{}", self.entry.name(), self.c2t, self.t2c, self.chunk.name(), self.order.name(), self.conc)
+        let slow = self.slow.map_or_else(String::new, |s| format!(" slow-reader-{} stall={}s", s.dir.name(), s.stall_s));
+        format!("tcp {}{dual}{slow} c2t={} t2c={} {} {} x{}", self.entry.name(), self.c2t, self.t2c, self.chunk.name(), self.order.name(), self.conc)
+    }
+    /// The deadline of one execution: slow-reader scenarios get the stall and `SLOW_TRANSFER_S`
+    /// whatever the deadline of the other scenarios is.
+    pub fn deadline_s(&self, base: u64) -> u64 {
+        self.slow.map_or(base, |s| base.max(s.stall_s + SLOW_TRANSFER_S))
+    }
+    /// Is this a point of the slow-reader sub-matrix as `c01.rs::slow_matrix` builds them?
+    fn slow_well_formed(&self) -> bool {
+        self.slow.is_none_or(|s| s.dir.orders().contains(&self.order) && self.dual.is_none() && !self.entry.v6literal() && self.conc >= 1)
     }
 }
 
@@ -413,7 +496,7 @@ fn lock(s: &Shared) -> std::sync::MutexGuard<'_, Side> {
 async fn write_chunked<W: AsyncWrite + Unpin>(w: &mut W, data: &[u8], chunk: Chunk, st: &Shared) -> std::io::Result<()> {
     let mut at = 0usize;
     let small_until = match chunk {
-        Chunk::One => 0,
+        Chunk::One | Chunk::K16 => 0,
         Chunk::Bytes64 => data.len().min(64),
         Chunk::Seven => data.len().min(4200),
     };
@@ -426,7 +509,11 @@ async fn write_chunked<W: AsyncWrite + Unpin>(w: &mut W, data: &[u8], chunk: Chu
         lock(st).tx_bytes = at;
         tokio::task::yield_now().await;
     }
-    let big = if chunk == Chunk::Seven { 65521 } else { usize::MAX };
+    let big = match chunk {
+        Chunk::Seven => 65521,
+        Chunk::K16 => 16 * 1024,
+        Chunk::One | Chunk::Bytes64 => usize::MAX,
+    };
     while at < data.len() {
         let end = at.saturating_add(big).min(data.len());
         w.write_all(&data[at..end]).await?;
